@@ -57,6 +57,9 @@ func (t *Tape) Choose(n int) int {
 		v = uint32(t.rng.Uint64N(uint64(n)))
 	}
 	t.pos++
+	if t.pos > 2*t.Max {
+		panic("verifsimkit: tape runaway (a scenario loops on tape choices)")
+	}
 	if len(t.Rec) < t.Max {
 		t.Rec = append(t.Rec, v)
 	}
